@@ -19,14 +19,14 @@ func init() {
 	register(&Check{
 		ID: "C09", Level: "exploration", Primary: "connections", EvalCount: "requests_tagged",
 		Rule: "16..256 concurrent clients run open / k requests of mixed operations / close / reconnect cycles against one long-lived server; every request carries the client-side connection tag in a DN; idle, " +
-			"malformed-frame and instantly-closed connections are interleaved (they consume IDs too), followed by replacements of the server's router while connections are open, by connections that are upgraded with StartTLS in the middle, by a long-lifetime phase (70 000+ short connections next to one long-lived one, which in the thorough tier goes on to issue more than 2^21 requests) and by episodes in which Accept fails temporarily (descriptor exhaustion) between two tagged connections. Oracle: tag -> ConnectionID is a function (stable per connection) and injective over the whole server lifetime " +
+			"malformed-frame and instantly-closed connections are interleaved (they consume IDs too), followed by replacements of the server's router while connections are open, by connections that are upgraded with StartTLS in the middle, by a long-lifetime phase (70 000+ short connections next to one long-lived one, which in the thorough tier goes on to issue more than 2^21 requests) and by episodes in which Accept fails temporarily (descriptor exhaustion; the first one lasts 2.5s) between two tagged connections. Oracle: tag -> ConnectionID is a function (stable per connection) and injective over the whole server lifetime " +
 			"(never reused, even after close; also after another gldap server was started in the same process), IDs > 0 - also when a handler asks again after its client has hung up -, and the ID passed to OnClose after a tagged connection ended is the one its handlers saw, exactly once. " +
 			"distinct_nontrivial = distinct tagged connections that issued at least two requests and were closed and reported via OnClose",
 		Assume: []string{"a connection is identified client-side by the tag it puts into its requests"},
 		Phases: func(tier string, seed int64) []Phase {
 			return []Phase{{Name: "cycles", Run: c09Run}, {Name: "cycles-tls-listener", Run: c09Run, Arg: "tls"}}
 		},
-		MinObserved: []string{"requests_tagged", "reconnects_after_close", "onclose_ids_matched", "accept_failure_episodes", "starttls_upgraded_connections", "short_lived_connections", "router_replaced_while_serving", "connection_ids_read_again_after_the_client_left", "other_servers_started_in_the_same_process", "unbind_handler_ids_matched", "connections_used_after_a_panic_on_their_read_loop"},
+		MinObserved: []string{"requests_tagged", "reconnects_after_close", "onclose_ids_matched", "accept_failure_episodes", "starttls_upgraded_connections", "short_lived_connections", "router_replaced_while_serving", "connection_ids_read_again_after_the_client_left", "other_servers_started_in_the_same_process", "unbind_handler_ids_matched", "connections_used_after_a_panic_on_their_read_loop", "accept_outages_that_lasted_for_seconds"},
 	})
 }
 
@@ -495,7 +495,13 @@ func c09Run(c *Ctx) {
 		}
 		ta, tb := fmt.Sprintf("tag=emfile-%d-a", ep), fmt.Sprintf("tag=emfile-%d-b", ep)
 		a := mkTagged(ta)
-		held, err := emfileEpisode(srv.Addr, ep)
+		// the first episode is an outage that lasts for seconds, the others are blips
+		hold := 40 * time.Millisecond
+		if ep == 0 {
+			hold = 2500 * time.Millisecond
+			c.Count("accept_outages_that_lasted_for_seconds", 1)
+		}
+		held, err := emfileEpisode(srv.Addr, ep, hold)
 		if err != nil {
 			c.Inconclusive("emfile episode: " + err.Error())
 			break
